@@ -343,13 +343,24 @@ impl NonsymSteps {
         let (step, amin) = *dg.pick(&[(0.8, 1e-4), (0.5, 1e-4), (0.8, 1e-8)]);
         let dmag = *dg.pick(&[1.0, 1e-3, 1e3]);
         let n = self.kind.n();
-        let wd = dg.take(ndirs(n));
+        let wd = dg.take(ndirs(n) + (1u64 << n));
         let pid = dg.take(NPTS);
         let z = nonsym_point(&self.kind, true, pid);
         let s = nonsym_point(&self.kind, false, (pid + 7) % NPTS);
         let fake = Kind::NN(n);
-        let (dz, _) = direction(&fake, &z, wd, dmag);
-        let (ds, _) = direction(&fake, &s, (wd + 3) % ndirs(n), dmag);
+        // beyond the named directions: every sign pattern (+-1)^n scaled by the size of the point and by 4, so
+        // that trial points of the line search land in every orthant (a feasibility predicate that is too
+        // permissive in one orthant lets the search stop there)
+        let signed = |v: &[f64], pat: u64| -> Vec<f64> {
+            let vmax = v.iter().fold(0.0f64, |m, x| m.max(x.abs())).max(1e-300);
+            (0..n).map(|i| if pat >> i & 1 == 1 { -4.0 * vmax * dmag } else { 4.0 * vmax * dmag }).collect()
+        };
+        let (dz, ds) = if wd < ndirs(n) {
+            (direction(&fake, &z, wd, dmag).0, direction(&fake, &s, (wd + 3) % ndirs(n), dmag).0)
+        } else {
+            let pat = wd - ndirs(n);
+            (signed(&z, pat), signed(&s, (pat + 3) % (1u64 << n)))
+        };
         let sc = *dg.pick(&COMMON_SCALES);
         let f = |v: Vec<f64>| -> Vec<f64> { v.into_iter().map(|x| x * sc).collect() };
         (f(z), f(s), f(dz), f(ds), amax, step, amin)
@@ -360,7 +371,7 @@ impl Space for NonsymSteps {
         format!("nonsym-steps-{:?}", self.kind)
     }
     fn size(&self) -> u64 {
-        ALPHAMAX.len() as u64 * 3 * 3 * ndirs(self.kind.n()) * NPTS * COMMON_SCALES.len() as u64
+        ALPHAMAX.len() as u64 * 3 * 3 * (ndirs(self.kind.n()) + (1u64 << self.kind.n())) * NPTS * COMMON_SCALES.len() as u64
     }
     fn describe(&self, id: u64) -> Value {
         let (z, s, dz, ds, amax, step, amin) = self.decode(id);
